@@ -112,3 +112,33 @@ func init() {
 		Assumptions: append(append([]string{}, envAssumptions...), commonAssumptions[0], commonAssumptions[3]),
 		Stubs:       []string{"os.*, exec.Command, ioutil.*, filepath.Walk, encoding/json (snapshot), time.Now, log, randSeqLC"}})
 }
+
+func init() {
+	graphBounds := map[string]string{
+		"graphs":     "every workflow built from: optional ParamSource S (3 values) or FromStr feeding A; A (no in-ports); B <- A; C <- A | B | A+B (fan-in); optional D with in-ports a, b <- A|B|C each (a possibly left unconnected), with or without an out-port (a process without out-ports drives the workflow); optional file->parameter converter F <- A|B and E <- F; dangling out-ports everywhere they arise",
+		"run mode":   "Run, or RunTo one symbolic target among the command processes",
+		"streams":    "1 or 3 items per stream with SCIPIPE_BUFSIZE=1 (streams longer than buffer + 1), fan-in up to 6 items",
+		"scheduling": "cooperative run-until-blocked schedule, every select with several ready cases is a symbolic choice; thorough: plus up to 2 solver-chosen pre-emptions at channel operations",
+	}
+	gq := func(ma []string, mr []string) []H {
+		return []H{{Pkg: "components", Fn: "VxH16graph", Params: p("bufsize", 1, "preempt", 0), MustReach: mr, MustAssert: ma}}
+	}
+	gt := func(ma []string, mr []string) []H {
+		return []H{{Pkg: "components", Fn: "VxH16graph", Params: p("bufsize", 1, "preempt", 0), MustReach: mr, MustAssert: ma},
+			{Pkg: "components", Fn: "VxH16graph", Params: p("bufsize", 2, "preempt", 1), MustReach: mr, MustAssert: ma}}
+	}
+	out := []string{"unequal stream lengths on the ports of one process (surplus dropped by design)", "cyclic graphs", "graphs with more than 7 processes", "streaming outputs (C17)", "whole-graph deadlock freedom beyond the explored schedules"}
+	as := append(append([]string{}, envAssumptions...), commonAssumptions[0], commonAssumptions[3])
+	st := []string{"os.*, exec.Command, ioutil.*, filepath.Walk, json, time.Now, log, randSeqLC; Go channels, select, mutex: interpreter objects with Go semantics"}
+	regCheck(&Check{ID: "C16", Quick: gq([]string{"C16.unconnected-port-refused", "C16.refused-before-any-command", "C16.only-the-closure-runs", "C04.every-input-set-once"}, []string{"ran", "refused"}),
+		Thorough: gt([]string{"C16.unconnected-port-refused", "C16.refused-before-any-command", "C16.only-the-closure-runs", "C04.every-input-set-once"}, []string{"ran", "refused"}),
+		Bounds:   graphBounds, Outside: out, Assumptions: as, Stubs: st})
+	q04 := gq([]string{"C04.every-input-set-once"}, []string{"ran"})
+	q04 = append(q04, H{Pkg: "scipipe", Fn: "VxH01wf", Params: p("shape", 0, "two", 1, "N", 60), MustReach: []string{"ran-returned"}, MustAssert: []string{"C04.each-task-once"}})
+	regCheck(&Check{ID: "C04", Quick: q04, Thorough: append(gt([]string{"C04.every-input-set-once"}, []string{"ran"}), q04[1:]...),
+		Bounds: graphBounds, Outside: out, Assumptions: as, Stubs: st})
+	q05 := gq([]string{"C05.run-returns", "C05.no-temp-dir-left", "C04.every-input-set-once"}, []string{"ran"})
+	q05 = append(q05, H{Pkg: "scipipe", Fn: "VxH01wf", Params: p("shape", 0, "two", 1, "N", 60), MustReach: []string{"ran-returned"}, MustAssert: []string{"C05.no-temp-dir-left"}})
+	regCheck(&Check{ID: "C05", Quick: q05, Thorough: append(gt([]string{"C05.run-returns", "C05.no-temp-dir-left", "C04.every-input-set-once"}, []string{"ran"}), q05[1:]...),
+		Bounds: graphBounds, Outside: out, Assumptions: as, Stubs: st})
+}
